@@ -29,7 +29,7 @@ PROPS = {
         "assumptions": _COMMON_ASSUMPTIONS,
     },
     "C17": {
-        "families": [("ipm", {"quick": 2400, "thorough": 120000}, None)],
+        "families": [("ipm", {"quick": 2400, "thorough": 120000}, None), ("fs", {"quick": 2000, "thorough": 100000}, None)],
         "wall": {"quick": 150, "thorough": 1500},
         "rule": "one evaluation = one seeded plan with dump operations at arbitrary points of a request history; non-trivial = the "
                 "dump followed >= 2 forward requests or >= 1 inverse request on that instance",
